@@ -8,7 +8,7 @@ BASE_CONSTS = {"NB": 8, "LB": 8}
 
 ASSUME_COMMON = [
     "TLC and the CommunityModules Java overrides (Json, SequencesExt.FoldLeft, Bitwise) are correct",
-    "limb algorithms of Word.tla agree with mathematics at 64 bits because they agree on every operand pair at 6/8 bits (MC_WordSmall, MC_AluSmall) and are uniform in the width",
+    "limb algorithms of Word.tla: agree with the mathematical definitions on every operand pair at 6/8 bits (MC_WordSmall, MC_AluSmall) and with the host's native u64/i64 arithmetic on boundary and pseudo-random operand pairs at 64 bits (MC_Word64, run by C01)",
     "harness projections: JSON<->bytes, fixed-address buffers (mmap MAP_FIXED_NOREPLACE), fork/waitpid isolation, error-message -> class mapping",
     "x86-64 little-endian Linux host",
 ]
@@ -340,6 +340,24 @@ def negative_controls_C01(ctx, recs):
                                       "a case with one changed expected byte is reported by rv replay"]
 
 
+def word64_model(ctx):
+    """Word.tla at 64 bits against the host's native arithmetic (boundary + pseudo-random operand pairs)."""
+    nr = 30 if ctx.quick else 180
+    r = run_tlc(f"{ctx.prop}-word64", "MC_Word64", {"NB": 8, "LB": 8, "Seed": ctx.seed, "NR": nr}, invariants=["Emit"], workers=10, timeout=1500)
+    ctx.add_tlc(f"MC_Word64 NR={nr}", r)
+    path = os.path.join(ctx.workdir, "word64.ndjson")
+    open(path, "w").write("\n".join(json.dumps(x) for x in r.replay) + "\n")
+    rep_path = os.path.join(ctx.workdir, "word64.report.json")
+    rv(["words", "--cases", path, "--report", rep_path])
+    rep = json.load(open(rep_path))
+    if rep["pairs"] < 1000:
+        raise ToolError(f"MC_Word64 produced only {rep['pairs']} operand pairs")
+    for f in rep["failures"]:
+        ctx.violation("Word.tla disagrees with native 64-bit arithmetic (a defect of the specification's arithmetic, not of rbpf): " + f["reason"][:300],
+                      {"kind": "word64", "record": f["record"]})
+    ctx.extra["word64_operand_pairs_agreeing_with_native_arithmetic"] = rep["pairs"] - rep["fail"]
+
+
 def small_width_models(ctx, which=("word", "alu")):
     """Exhaustive agreement of the limb arithmetic / ALU semantics with mathematics at 8 bits."""
     for name, module, cfgs in (("word", "MC_WordSmall", ((2, 4),) if ctx.quick else ((2, 4), (4, 2), (2, 3))),
@@ -360,6 +378,7 @@ def small_width_models(ctx, which=("word", "alu")):
 # ------------------------------------------------------------------------------------------------
 def run_C01(ctx):
     small_width_models(ctx)
+    word64_model(ctx)
     rate = 24 if ctx.quick else 1
     recs = exec_cases(ctx, "isa", ["alu", "jmp", "far", "farcall", "mem", "cfg", "calls"], rate, timeout=1500)
     ctx.nontrivial = len({json.dumps(r["case"]["id"]) for r in recs})
